@@ -255,14 +255,14 @@ func replayOnRealCode(p *Program, repo string, u *UnitResult, o *Obl) (bool, str
 	}
 	var log strings.Builder
 	fieldTerm := func(comp, prm string) string {
-		return fmt.Sprintf("|show.%s.%s|", prm, comp)
+		return fmt.Sprintf("show.%s.%s", prm, comp)
 	}
 	// build arguments
 	var args []string
 	var fix []string // SMT constraints pinning the inputs
 	for _, prm := range fn.Params {
 		term := "|p." + prm.Name() + "|"
-		val, ok := o.Model[term]
+		val, ok := o.Model[strings.Trim(term, "|")]
 		if !ok {
 			return false, "model has no value for " + prm.Name()
 		}
@@ -294,8 +294,8 @@ func replayOnRealCode(p *Program, repo string, u *UnitResult, o *Obl) (bool, str
 				return false, "cannot build object of type " + dt.String()
 			}
 			for k, v := range o.Model {
-				if strings.HasPrefix(k, "|show."+prm.Name()+".") {
-					fix = append(fix, fmt.Sprintf("(assert (= %s %s))", k, v))
+				if strings.HasPrefix(k, "show."+prm.Name()+".") {
+					fix = append(fix, fmt.Sprintf("(assert (= |%s| %s))", k, v))
 				}
 			}
 			args = append(args, lit)
@@ -305,8 +305,8 @@ func replayOnRealCode(p *Program, repo string, u *UnitResult, o *Obl) (bool, str
 				return false, "cannot build object of type " + t.String()
 			}
 			for k, v := range o.Model {
-				if strings.HasPrefix(k, "|show."+prm.Name()+".") {
-					fix = append(fix, fmt.Sprintf("(assert (= %s %s))", k, v))
+				if strings.HasPrefix(k, "show."+prm.Name()+".") {
+					fix = append(fix, fmt.Sprintf("(assert (= |%s| %s))", k, v))
 				}
 			}
 			args = append(args, lit)
